@@ -397,6 +397,8 @@ def value(rng, t):
             return ("gate", 1, None)
         if g in ("RefCell", "Rc", "Arc", "Mutex", "RwLock") and r < 0.3:
             st = 2
+        if g == "Cow" and r < 0.5:
+            return ("gate", 0, value(rng, t["t"]), "borrowed")
         return ("gate", st, value(rng, t["t"]))
     if k == "arr":
         return ("prod", [value(rng, t["t"]) for _ in range(t["n"])], [])
@@ -463,6 +465,8 @@ def rust_build(t, val):
         if g == "Cell":
             return "Cell::new(%s)" % inner
         if g == "Cow":
+            if len(val) > 3 and val[3] == "borrowed":
+                return "Cow::Borrowed(Box::leak(Box::new(%s)))" % inner
             return "Cow::Owned(%s)" % inner
         if g == "RefCell":
             return "{ let c = RefCell::new(%s); %sc }" % (inner, "std::mem::forget(c.borrow_mut()); " if st == 2 else "")
